@@ -383,6 +383,11 @@ func readContracts(path string) (map[string]*Contract, error) {
 		}
 		_ = lastClause
 	}
+	for _, c := range out {
+		if len(c.Requires)+len(c.Ensures)+len(c.Assigns) == 0 && !c.Pure && !c.Trusted {
+			c.Inline = true // loop annotations only
+		}
+	}
 	return out, nil
 }
 
